@@ -2,10 +2,16 @@
  * behind the line protocol of `readerdriver`:
  *     read <debug 0|1> <strict 0|1> <hex bytes>  ->  canonical dump of the WasmModule | err <code>
  * The file image is an exact-size malloc block (an over-read is visible to ASan).  `strict` is ignored here:
- * whether `-((I64)1 << 63)` was executed is decided by the UBSan build from its stderr (MARK_LINES). */
+ * whether `-((I64)1 << 63)` was executed is decided by the UBSan build from its stderr.  That build
+ * (-DMARK_LINES) writes "LINE <n>" to stderr before each case and handles the case in a forked child: UBSan
+ * reports a source location once per process only, and a crash then loses just that case (`crash <status>`). */
 #include <stdio.h>
 #include <stdlib.h>
 #include <string.h>
+#ifdef MARK_LINES
+#include <unistd.h>
+#include <sys/wait.h>
+#endif
 #include "reader.h"
 
 static int hexv(int c) {
@@ -160,6 +166,20 @@ int main(void) {
         for (i = 0; i < n; i++) data[i] = (U8) (hexv(p[2 * i]) * 16 + hexv(p[2 * i + 1]));
 #ifdef MARK_LINES
         fprintf(stderr, "LINE %lu\n", lineNo);
+        fflush(stdout);
+        {
+            pid_t pid = fork();
+            if (pid != 0) {
+                int status = 0;
+                waitpid(pid, &status, 0);
+                if (!(WIFEXITED(status) && WEXITSTATUS(status) == 0)) {
+                    printf("crash %d\n", status);
+                    fflush(stdout);
+                }
+                free(data);
+                continue;
+            }
+        }
 #endif
         reader.buffer.data = data;
         reader.buffer.length = n;
@@ -171,6 +191,9 @@ int main(void) {
             dump(reader.module, data, n);
         }
         fflush(stdout);
+#ifdef MARK_LINES
+        _exit(0);
+#endif
         /* the module keeps pointers into `data`; nothing is freed (the process is short-lived) */
     }
     return 0;
